@@ -766,3 +766,196 @@ Section Rejects.
       exfalso. eapply copy_buffer_rejects; eauto.
   Qed.
 End Rejects.
+
+(* ------------------------------------------------------------------ a failing reader is never accepted *)
+Section FailingReader.
+  Variable H : str -> str -> str.
+  Variable comb : bool.
+
+  Definition quiet (e : option rerr) : Prop := e = None \/ e = Some EEof.
+
+  Lemma script_read_nfail evs k bs e evs' :
+    script_read comb evs k = ((bs, e), evs') -> quiet e -> nfail evs' = nfail evs.
+  Proof.
+    destruct evs as [|[d| |] r]; simpl; intros E Q.
+    - inversion E; subst. reflexivity.
+    - destruct (length d <=? k).
+      + destruct comb.
+        * destruct r as [|[d'| |] r']; inversion E; subst; simpl; auto.
+          destruct Q as [Q|Q]; discriminate.
+        * inversion E; subst. reflexivity.
+      + inversion E; subst. reflexivity.
+    - inversion E; subst. reflexivity.
+    - inversion E; subst. destruct Q as [Q|Q]; discriminate.
+  Qed.
+
+  Lemma base_read_nfail s k bs e s' :
+    base_read comb s k = ((bs, e), s') -> quiet e -> nfail (b_evs s') = nfail (b_evs s).
+  Proof.
+    unfold base_read. destruct s as [evs [n|]]; simpl.
+    - destruct (n <=? 0)%Z.
+      + intro E; inversion E; subst. reflexivity.
+      + destruct (script_read comb evs (clamp k n)) as [[bs0 e0] evs0] eqn:Es.
+        intro E; inversion E; subst; simpl. eapply script_read_nfail; eauto.
+    - destruct (script_read comb evs k) as [[bs0 e0] evs0] eqn:Es.
+      intro E; inversion E; subst; simpl. eapply script_read_nfail; eauto.
+  Qed.
+
+  Lemma read_full_tee_nfail fuel : forall b h want acc acc' b' h',
+    read_full (tee_read comb) fuel (b, h) want acc = ((acc', Some EEof), (b', h')) ->
+    nfail (b_evs b') = nfail (b_evs b).
+  Proof.
+    induction fuel as [|f IH]; intros b h want acc acc' b' h'; simpl.
+    - destruct (want <=? length acc); intro E; inversion E.
+    - destruct (want <=? length acc); [intro E; inversion E|].
+      unfold tee_read at 1. simpl.
+      destruct (base_read comb b (want - length acc)) as [[bs e0] b1] eqn:Eb.
+      destruct e0 as [e0|].
+      + destruct (want <=? length (acc ++ bs)); [intro E; inversion E|].
+        destruct ((0 <? length (acc ++ bs)) && is_eof e0); intro E; inversion E; subst.
+        eapply base_read_nfail; eauto. right; reflexivity.
+      + intro E. apply IH in E. rewrite E. eapply base_read_nfail; eauto. left; reflexivity.
+  Qed.
+
+  (* while the VerifyReader is not in an error state no failure has been consumed *)
+  Definition inv2 (NF : nat) (v : vrd) : Prop :=
+    v_verified v = false /\ (quiet (v_err v) -> nfail (b_evs (v_base v)) = NF).
+
+  Lemma vr_read_inv2 NF v k bs e v' :
+    inv2 NF v -> vr_read comb v k = ((bs, e), v') -> inv2 NF v'.
+  Proof.
+    intros [I1 I2] E. unfold vr_read in E. destruct (v_err v) as [e0|] eqn:Ee.
+    - inversion E; subst. split; auto. rewrite Ee. exact I2.
+    - destruct (v_N v <=? 0)%Z.
+      + inversion E; subst. split; auto. simpl. intros _. apply I2. left; reflexivity.
+      + destruct (base_read comb (v_base v) (clamp k (v_N v))) as [[bs0 e1] b1] eqn:Eb.
+        destruct e1 as [e1|]; inversion E; subst; clear E; (split; [exact I1|]); simpl.
+        * intro Q. rewrite <- (I2 (or_introl eq_refl)). eapply base_read_nfail; eauto.
+          destruct e1; simpl in Q; try (destruct Q as [Q|Q]; discriminate). right; reflexivity.
+        * intros _. rewrite <- (I2 (or_introl eq_refl)). eapply base_read_nfail; eauto. left; reflexivity.
+  Qed.
+
+  Lemma read_full_inv2 NF fuel : forall v want acc acc' e v',
+    inv2 NF v -> read_full (vr_read comb) fuel v want acc = ((acc', e), v') -> inv2 NF v'.
+  Proof.
+    induction fuel as [|f IH]; intros v want acc acc' e v' I; simpl.
+    - destruct (want <=? length acc); intro E; inversion E; subst; auto.
+    - destruct (want <=? length acc); [intro E; inversion E; subst; auto|].
+      destruct (vr_read comb v (want - length acc)) as [[bs e0] v1] eqn:Er.
+      pose proof (vr_read_inv2 _ _ _ _ _ _ I Er) as I1.
+      destruct e0 as [e0|].
+      + destruct (want <=? length (acc ++ bs)); [intro E; inversion E; subst; auto|].
+        destruct ((0 <? length (acc ++ bs)) && is_eof e0); intro E; inversion E; subst; auto.
+      + apply IH; auto.
+  Qed.
+
+  Lemma copy_loop_inv2 NF bufsz fuel : forall v out e out' v',
+    inv2 NF v -> copy_loop comb fuel v bufsz out = ((e, out'), v') -> inv2 NF v'.
+  Proof.
+    induction fuel as [|f IH]; intros v out e out' v' I; simpl.
+    - intro E; inversion E; subst; auto.
+    - destruct (vr_read comb v bufsz) as [[bs e0] v1] eqn:Er.
+      pose proof (vr_read_inv2 _ _ _ _ _ _ I Er) as I1.
+      destruct e0 as [e0|]; [destruct e0; intro E; inversion E; subst; auto|apply IH; auto].
+  Qed.
+
+  Lemma vr_verify_inv2 NF fuel dg v v' :
+    inv2 NF v -> lim_none (v_base v) = true -> vr_verify H comb fuel dg v = (None, v') -> NF = 0.
+  Proof.
+    intros [I1 I2] L. unfold vr_verify. rewrite I1.
+    destruct (ensure_eof comb fuel (v_base v, v_hashed v)) as [ok [b1 h1]] eqn:Ee.
+    assert (P : quiet (v_err v) ->
+                (if negb ok then (Some ETrailing, set_err (mkVr b1 (v_N v) h1 (v_err v) false) ETrailing)
+                 else if verified H dg h1 then (None, mkVr b1 (v_N v) h1 (Some EEof) true)
+                      else (Some EMismatch, set_err (mkVr b1 (v_N v) h1 (v_err v) false) EMismatch)) = (None, v') ->
+                NF = 0).
+    { intros Q X. destruct ok; [|discriminate]. rewrite <- (I2 Q).
+      pose proof Ee as Ee'. apply ensure_eof_spec in Ee' as (_ & d & _ & _ & E3).
+      destruct (E3 eq_refl) as [_ Z]. unfold ensure_eof in Ee.
+      destruct (read_full (tee_read comb) fuel (v_base v, v_hashed v) 1 []) as [[acc e] [b2 h2]] eqn:Er.
+      inversion Ee; subst. destruct e as [[]|]; try discriminate.
+      apply read_full_tee_nfail in Er. rewrite <- Er, (Z L). reflexivity. }
+    destruct (v_err v) as [e0|] eqn:Ee0.
+    - destruct e0; try discriminate. apply P. right; reflexivity.
+    - destruct (v_N v >? 0)%Z; [discriminate|]. apply P. left; reflexivity.
+  Qed.
+
+  Lemma new_vr_inv2 fixed src dg sz : inv2 (nfail (b_evs src)) (new_vr_gen fixed src dg sz).
+  Proof.
+    unfold new_vr_gen. destruct (negb (valid_digest dg)); [split; auto|].
+    destruct (fixed && (sz <? 0)%Z); split; auto.
+  Qed.
+
+  Lemma read_all_failing fixed fuel evs dg sz buf v :
+    read_all H comb fixed fuel (mkBase evs None) dg sz = ((None, buf), v) -> nfail evs = 0.
+  Proof.
+    unfold read_all. destruct (sz <? 0)%Z eqn:Z0; [discriminate|].
+    pose proof (new_vr_inv2 fixed (mkBase evs None) dg sz) as I. simpl in I.
+    destruct (read_full (vr_read comb) fuel (new_vr fixed (mkBase evs None) dg sz) (Z.to_nat sz) []) as [[b0 e] v0] eqn:Er.
+    pose proof (read_full_inv2 _ _ _ _ _ _ _ _ I Er) as I0.
+    assert (L : lim_none (v_base v0) = true).
+    { assert (S : st3 H (stream evs) dg sz (new_vr fixed (mkBase evs None) dg sz) []).
+      { apply (new_vr_st3 H fixed (mkBase evs None)). right. lia. }
+      destruct (read_full_vr H comb _ _ _ _ _ _ _ _ _ _ _ S Er) as (d & _ & _ & E3).
+      rewrite E3. unfold new_vr. rewrite new_vr_lim. reflexivity. }
+    destruct e as [e|]; [discriminate|].
+    destruct (vr_verify H comb fuel dg v0) as [r v1] eqn:Ev.
+    intro X; inversion X; subst. eapply vr_verify_inv2; eauto.
+  Qed.
+
+  Lemma copy_buffer_failing fuel evs bufsz dg sz out v :
+    copy_buffer H comb true fuel (mkBase evs None) bufsz dg sz = ((None, out), v) -> nfail evs = 0.
+  Proof.
+    unfold copy_buffer.
+    pose proof (new_vr_inv2 true (mkBase evs None) dg sz) as I. simpl in I.
+    destruct (copy_loop comb fuel (new_vr true (mkBase evs None) dg sz) bufsz []) as [[e o] v0] eqn:Ec.
+    pose proof (copy_loop_inv2 _ _ _ _ _ _ _ _ I Ec) as I0.
+    assert (L : lim_none (v_base v0) = true).
+    { assert (S : st3 H (stream evs) dg sz (new_vr true (mkBase evs None) dg sz) []).
+      { apply (new_vr_st3 H true (mkBase evs None)). left; reflexivity. }
+      destruct (copy_loop_st3 H comb _ _ _ _ _ _ _ _ _ _ S Ec) as (_ & E3).
+      rewrite E3. unfold new_vr. rewrite new_vr_lim. reflexivity. }
+    destruct e as [e|]; [discriminate|].
+    destruct (vr_verify H comb fuel dg v0) as [r v1] eqn:Ev.
+    intro X; inversion X; subst. eapply vr_verify_inv2; eauto.
+  Qed.
+
+  Lemma nfail_in evs : In Fail evs -> nfail evs <> 0.
+  Proof.
+    induction evs as [|e r IH]; simpl; [intros []|].
+    intros [X|X]; [subst e; simpl; discriminate|destruct e; simpl; auto].
+  Qed.
+
+  (* a reader that reports an error at any point before it is exhausted *)
+  Lemma failing_reader_rejected fuel evs d :
+    In Fail evs ->
+    (forall fixed buf v, read_all H comb fixed fuel (mkBase evs None) (d_dg d) (d_sz d) <> ((None, buf), v)) /\
+    (forall bufsz out v, copy_buffer H comb true fuel (mkBase evs None) bufsz (d_dg d) (d_sz d) <> ((None, out), v)) /\
+    (forall fixed m e m', mem_push H comb fixed fuel m d (mkBase evs None) = (e, m') -> e <> None /\ m' = m) /\
+    (forall s e s', oci_push H comb true fuel s d (mkBase evs None) = (e, s') -> e <> None /\ s' = s) /\
+    (forall s name e s', name <> [] -> file_push H comb true fuel s name d evs = (e, s') -> e <> None).
+  Proof.
+    intro F. apply nfail_in in F. split; [|split; [|split; [|split]]].
+    - intros fixed buf v E. apply read_all_failing in E. auto.
+    - intros bufsz out v E. apply copy_buffer_failing in E. auto.
+    - intros fixed m e m'. unfold mem_push. destruct (mem_get m d).
+      + intro E; inversion E; subst. split; [discriminate|reflexivity].
+      + destruct (read_all H comb fixed fuel (mkBase evs None) (d_dg d) (d_sz d)) as [[[e0|] buf] v] eqn:Er;
+          intro E; inversion E; subst.
+        * split; [discriminate|reflexivity].
+        * apply read_all_failing in Er. contradiction.
+    - intros s e s'. unfold oci_push. destruct (negb (valid_digest (d_dg d))).
+      { intro E; inversion E; subst. split; [discriminate|reflexivity]. }
+      destruct (oci_get s (d_dg d)).
+      + intro E; inversion E; subst. split; [discriminate|reflexivity].
+      + destruct (copy_buffer H comb true fuel (mkBase evs None) oci_bufsz (d_dg d) (d_sz d)) as [[[e0|] out] v] eqn:Ec;
+          intro E; inversion E; subst.
+        * split; [discriminate|reflexivity].
+        * apply copy_buffer_failing in Ec. contradiction.
+    - intros s name e s' Nn. unfold file_push. destruct name as [|c n0]; [congruence|].
+      destruct (name_in (c :: n0) (f_names s)); [intro E; inversion E; discriminate|].
+      destruct (copy_buffer H comb true fuel (mkBase evs None) file_bufsz (d_dg d) (d_sz d)) as [[[e0|] out] v] eqn:Ec;
+        intro E; inversion E; subst; [discriminate|].
+      apply copy_buffer_failing in Ec. contradiction.
+  Qed.
+End FailingReader.
